@@ -87,9 +87,11 @@ type cacheStep struct {
 }
 
 type cacheSpec struct {
-	Msgs    []cacheMsgSpec `json:"msgs"`
-	Steps   []cacheStep    `json:"steps"`
-	Threads [][]int        `json:"threads"` // empty: sequential; else goroutine t runs these steps, all released together
+	Msgs    []cacheMsgSpec    `json:"msgs"`
+	Steps   []cacheStep       `json:"steps"`
+	Threads [][]int           `json:"threads"`           // empty: sequential; else goroutine t runs these steps, all released together
+	Fresh   *cacheFreshSpec   `json:"fresh,omitempty"`   // instead of steps: rounds of cold first use of fresh types (cache_conc.go)
+	Literal *cacheLiteralSpec `json:"literal,omitempty"` // instead of steps: literal messages, nothing touched before the goroutines start
 }
 
 type cacheOut struct {
@@ -308,6 +310,16 @@ func cacheChildMain() {
 		fmt.Fprintln(os.Stderr, "cache child: bad spec:", err)
 		os.Exit(3)
 	}
+	if spec.Fresh != nil {
+		b, _ := json.Marshal(cacheOut{Results: cacheFreshChild(*spec.Fresh)})
+		os.Stdout.Write(b)
+		return
+	}
+	if spec.Literal != nil {
+		b, _ := json.Marshal(cacheOut{Results: cacheLiteralChild(*spec.Literal)})
+		os.Stdout.Write(b)
+		return
+	}
 	s := getSchema()
 	msgs := make([]cacheMsg, len(spec.Msgs))
 	for i, ms := range spec.Msgs {
@@ -372,7 +384,14 @@ func cacheRunChild(bin string, spec cacheSpec) cacheChildRes {
 		return cacheChildRes{stderr: se.String(), err: fmt.Errorf("timeout")}
 	}
 	var o cacheOut
-	if jerr := json.Unmarshal(so.Bytes(), &o); jerr != nil || len(o.Results) != len(spec.Steps) {
+	wantN := len(spec.Steps)
+	if spec.Fresh != nil {
+		wantN = spec.Fresh.Rounds
+	}
+	if spec.Literal != nil {
+		wantN = spec.Literal.K * len(literalOps(len(literalMessages())))
+	}
+	if jerr := json.Unmarshal(so.Bytes(), &o); jerr != nil || len(o.Results) != wantN {
 		if werr == nil {
 			werr = fmt.Errorf("bad child output")
 		}
@@ -1645,7 +1664,32 @@ func cacheRaceBinary() (path, note, fail string) {
 		binDir = "/verif/.work/bin"
 	}
 	_ = os.MkdirAll(binDir, 0o755)
-	out := filepath.Join(binDir, "harness-race-"+hashSources(modDir, repoDir))
+	// a mutant under test (bin/mutate.sh: GOFLAGS=… -overlay=<json>) must be in the race build too
+	overlay, overlayHash := "", ""
+	for _, fl := range strings.Fields(os.Getenv("GOFLAGS")) {
+		if strings.HasPrefix(fl, "-overlay=") {
+			overlay = fl
+			h := sha256.New()
+			if b, err := os.ReadFile(strings.TrimPrefix(fl, "-overlay=")); err == nil {
+				h.Write(b)
+				var ov struct{ Replace map[string]string }
+				if json.Unmarshal(b, &ov) == nil {
+					var ks []string
+					for k := range ov.Replace {
+						ks = append(ks, k)
+					}
+					sort.Strings(ks)
+					for _, k := range ks {
+						if fb, err := os.ReadFile(ov.Replace[k]); err == nil {
+							h.Write(fb)
+						}
+					}
+				}
+			}
+			overlayHash = "-" + hex.EncodeToString(h.Sum(nil))[:10]
+		}
+	}
+	out := filepath.Join(binDir, "harness-race-"+hashSources(modDir, repoDir)+overlayHash)
 	if st, err := os.Stat(out); err == nil && st.Mode().IsRegular() {
 		return out, "cache.race-binary.cached", ""
 	}
@@ -1658,7 +1702,7 @@ func cacheRaceBinary() (path, note, fail string) {
 			env = append(env, kv)
 		}
 	}
-	cmd.Env = append(env, "GOFLAGS=-mod=mod", "GOPROXY=off", "CGO_ENABLED=1")
+	cmd.Env = append(env, strings.TrimSpace("GOFLAGS=-mod=mod "+overlay), "GOPROXY=off", "CGO_ENABLED=1")
 	if b, err := cmd.CombinedOutput(); err != nil {
 		return "", "", "cache: building the race-enabled harness failed: " + err.Error() + ": " + truncate(string(b), 600)
 	}
@@ -1802,8 +1846,23 @@ func declaredNames(fd *ast.FuncDecl) map[string]bool {
 	return names
 }
 
+// goOverlay: the file replacements of `-overlay=<json>` in GOFLAGS (a mutant under test, bin/mutate.sh): the scan
+// must read the sources the harness was built from.
+func goOverlay() map[string]string {
+	for _, fl := range strings.Fields(os.Getenv("GOFLAGS")) {
+		if strings.HasPrefix(fl, "-overlay=") {
+			var ov struct{ Replace map[string]string }
+			if b, err := os.ReadFile(strings.TrimPrefix(fl, "-overlay=")); err == nil && json.Unmarshal(b, &ov) == nil {
+				return ov.Replace
+			}
+		}
+	}
+	return nil
+}
+
 func scanPackage(dir, pkg string) (*structuralScan, error) {
 	fset := token.NewFileSet()
+	overlay := goOverlay()
 	ents, err := os.ReadDir(dir)
 	if err != nil {
 		return nil, err
@@ -1814,7 +1873,15 @@ func scanPackage(dir, pkg string) (*structuralScan, error) {
 		if e.IsDir() || !strings.HasSuffix(n, ".go") || strings.HasSuffix(n, "_test.go") {
 			continue
 		}
-		f, err := parser.ParseFile(fset, filepath.Join(dir, n), nil, parser.ParseComments|parser.SkipObjectResolution)
+		var src any
+		if rep, ok := overlay[filepath.Join(dir, n)]; ok {
+			b, rerr := os.ReadFile(rep)
+			if rerr != nil {
+				return nil, rerr
+			}
+			src = b
+		}
+		f, err := parser.ParseFile(fset, filepath.Join(dir, n), src, parser.ParseComments|parser.SkipObjectResolution)
 		if err != nil {
 			return nil, err
 		}
@@ -1928,6 +1995,47 @@ func isSyncMapDecl(vs *ast.ValueSpec) bool {
 	return false
 }
 
+// checkRegisterCalls: the whitelisted writers (Register*, and what they call) must themselves be called only from
+// init-time code: a Register* reached from an encode / decode path would write the plain maps under the readers.
+func (sc *structuralScan) checkRegisterCalls(allowed map[*ast.FuncDecl]bool) {
+	fact := func(f string) { sc.facts = append(sc.facts, f) }
+	for _, fd := range sc.all {
+		if allowed[fd] {
+			continue
+		}
+		name := funcDisplayName(fd)
+		local := declaredNames(fd)
+		ast.Inspect(fd.Body, func(n ast.Node) bool {
+			c, ok := n.(*ast.CallExpr)
+			if !ok {
+				return true
+			}
+			fun := c.Fun
+			if ix, ok := fun.(*ast.IndexExpr); ok {
+				fun = ix.X
+			}
+			if ix, ok := fun.(*ast.IndexListExpr); ok {
+				fun = ix.X
+			}
+			callee := ""
+			switch f := fun.(type) {
+			case *ast.Ident:
+				if !local[f.Name] && sc.funcs[f.Name] != nil {
+					callee = f.Name
+				}
+			case *ast.SelectorExpr:
+				if id, ok := f.X.(*ast.Ident); ok && (id.Name == "ttlv" || id.Name == "kmip") && !local[id.Name] {
+					callee = f.Sel.Name
+				}
+			}
+			if strings.HasPrefix(callee, "Register") && !sc.hookFile[fd] {
+				fact(fmt.Sprintf("register-called-after-init:%s.%s@%s", sc.pkg, callee, name))
+			}
+			return true
+		})
+	}
+}
+
 func (sc *structuralScan) check(cacheVars map[string]string) {
 	allowed := sc.allowedWriters()
 	fact := func(f string) { sc.facts = append(sc.facts, f) }
@@ -1966,6 +2074,7 @@ func (sc *structuralScan) check(cacheVars map[string]string) {
 			}
 		}
 	}
+	sc.checkRegisterCalls(allowed)
 	for _, fd := range sc.all {
 		name := funcDisplayName(fd)
 		local := declaredNames(fd)
@@ -2061,13 +2170,16 @@ func (sc *structuralScan) check(cacheVars map[string]string) {
 
 func cacheStructural(ctx *Ctx, repoDir string) {
 	type pk struct {
-		dir, name string
-		caches    map[string]string
+		dir, name    string
+		caches       map[string]string
+		registerOnly bool // packages that only use the codec: just "no Register* after init"
 	}
 	pkgs := []pk{
-		{filepath.Join(repoDir, "ttlv"), "ttlv", map[string]string{"encodeFuncsCache": "encodeFuncFor", "decodeFuncsCache": "decodeFuncFor"}},
-		{repoDir, "kmip", map[string]string{}},
-		{filepath.Join(repoDir, "payloads"), "payloads", map[string]string{}},
+		{filepath.Join(repoDir, "ttlv"), "ttlv", map[string]string{"encodeFuncsCache": "encodeFuncFor", "decodeFuncsCache": "decodeFuncFor"}, false},
+		{repoDir, "kmip", map[string]string{}, false},
+		{filepath.Join(repoDir, "payloads"), "payloads", map[string]string{}, false},
+		{filepath.Join(repoDir, "kmipclient"), "kmipclient", nil, true},
+		{filepath.Join(repoDir, "kmipserver"), "kmipserver", nil, true},
 	}
 	for _, p := range pkgs {
 		sc, err := scanPackage(p.dir, p.name)
@@ -2075,7 +2187,11 @@ func cacheStructural(ctx *Ctx, repoDir string) {
 			ctx.Res.Fail("cache structural scan of " + p.dir + ": " + err.Error())
 			continue
 		}
-		sc.check(p.caches)
+		if p.registerOnly {
+			sc.checkRegisterCalls(sc.allowedWriters())
+		} else {
+			sc.check(p.caches)
+		}
 		ctx.Add(fmt.Sprintf("# cache.structural %s vars=%d funcs=%d", p.name, len(sc.vars), len(sc.all)), fmt.Sprintf("facts-violated=%d", len(sc.facts)), true, "C20")
 		ctx.Res.Count(fmt.Sprintf("cache.structural.%s.pkgvars=%d", p.name, len(sc.vars)))
 		seen := map[string]bool{}
@@ -2084,7 +2200,12 @@ func cacheStructural(ctx *Ctx, repoDir string) {
 				continue
 			}
 			seen[f] = true
-			ctx.Res.Violate(report.Violation{Property: "C20", Oracle: "structural", Key: "cache:structural:" + f, Detail: "a structural fact the data-race argument relies on does not hold of the sources: " + f, Line: "# cache.structural " + p.name})
+			// A structural fact is supporting evidence for the data-race clause, not the property: when it stops
+			// holding (a renamed or split function, a map guarded by a mutex instead of a sync.Map, a new pooled
+			// helper, …) the ARGUMENT no longer applies to the sources — lost evidence, to be re-established by a
+			// reviewer — while genuine races are what the race-detector scenarios report with an input.
+			ctx.Res.Count("cache.structural.lost:" + strings.SplitN(f, ":", 2)[0])
+			ctx.Res.Fail("lost evidence (C20 structural scan of " + p.name + "): the fact `" + f + "` the data-race argument relies on no longer holds of the sources; the scan must be revisited (this is not a failing input)")
 		}
 	}
 }
@@ -2140,6 +2261,8 @@ func runCache(ctx *Ctx) {
 		ctx.Res.Fail(rr.fail)
 	}
 	e.concurrentScenarios(rr.path)
+	e.freshScenarios(rr.path)
+	e.literalScenarios(rr.path)
 	e.reuseLines()
 	e.histLines()
 	e.marshalAliasOracle()
